@@ -8,6 +8,7 @@ AUDIT = "Eliot/Audit/C02.lean"
 TL_THEOREMS = ["Sys.C02.TL.child_eq", "Sys.C02.TL.next_sibling_eq", "Sys.C02.TL.parent_eq", "Sys.C02.TL.is_sibling_of_eq",
                "Sys.C02.TL.nextTaskLevel_refines", "Sys.C02.TL.model_nextLevel_is_translated", "Sys.C02.TL.positions_one_to_n", "Sys.C02.TL.no_writes_elsewhere"]
 SKELETON_TARGETS = {"Sys.C02.skeleton_E6_order": "Eliot.Properties.C02Skel",
+                    "Sys.UuidSkel.skeleton_E11_task_uuids_are_uuid4": "Eliot.Properties.UuidSkel",
                     # theorems about the statement-by-statement *translation* of TaskLevel / Action._nextTaskLevel (extractor E10)
                     "Sys.C02.TL.translated_position_arithmetic": ("Eliot.Properties.C02TL", "Eliot/Audit/C02TL.lean", TL_THEOREMS)}
 THEOREMS = ["Sys.C02.inv_preserved", "Sys.C02.reachable_inv", "Sys.C02.positions_contiguous", "Sys.C02.levels_unique",
@@ -29,12 +30,14 @@ UNSTRUCT = dict(BASE, p_handles=0.6, p_remote=0.4)
 
 
 def healthy_view(case, real, rt):
-    prog = case["prog"]
-    if not (prog and prog[0]["op"] == "addDests"):
+    """What one destination of the first add_destinations call that never failed has accepted - everything, since the
+    start-up backlog is delivered to it (the generators keep the backlog below 1000 here)."""
+    if not rt.add_windows:
         return None
     failed = {f[0] for f in rt.failures}
-    for d in prog[0]["ds"]:
+    for d in rt.add_windows[0][2]:
         if d not in failed:
+            real["_view_idx"] = [i for i, (dd, m) in enumerate(real["accepted"]) if dd == d]
             return [m for dd, m in real["accepted"] if dd == d]
     return None
 
@@ -79,7 +82,8 @@ def reserved_places(rt):
     return out
 
 
-def oracle_structured(ctx, case, view, reserved=frozenset(), late_reports=False):
+def oracle_structured(ctx, case, view, reserved=frozenset(), late_reports=False, flush=None):
+    """`flush`: the range of view indexes delivered by the first add_destinations call itself (the start-up backlog), or None"""
     # group by action: an action is identified by (uuid, L) where some message has level L+[1] with action_status started
     # positions used under (uuid, L): first components after L of all messages whose level extends L
     by_uuid = {}
@@ -111,7 +115,18 @@ def oracle_structured(ctx, case, view, reserved=frozenset(), late_reports=False)
                       and lvl[-1] == 1 and str(m.get("action_type", "")).startswith("eliot:remote_task")}
             order = [pos[k] for k in ks if k not in remote and pos[k] >= 0]
             if order != sorted(order):
-                ctx.violation("inside action %s%s emission order differs from level order" % (u, list(L)), case)
+                # which items were emitted before an item of lower position?
+                rest = [k for k in ks if k not in remote and pos[k] >= 0]
+                early = [k for j, k in enumerate(rest) if any(pos[k] < pos[k2] for k2 in rest[:j])]
+                # (`early`: items emitted before some item of lower position)
+                key = None
+                if flush is not None and early:
+                    # every overtaking item is (or, for a sub-action, begins with) a failure report delivered while the first
+                    # add_destinations call was passing on the backlog
+                    if all(view[pos[k]].get("message_type") == "eliot:destination_failure" and flush[0] <= pos[k] < flush[1] for k in early):
+                        key = {"order": "failure-report-before-remaining-backlog", "during": "first add_destinations"}
+                ctx.violation("inside action %s%s emission order differs from level order (items %s were emitted before items of "
+                              "lower position)" % (u, list(L), early), case, key=key)
                 return
             first = [m for lvl, i, m in msgs if tuple(lvl) == L + (1,)]
             if not first or first[0].get("action_status") != "started":
@@ -178,7 +193,10 @@ def make_oracle(structured, late_reports=False):
         real["_nview"] = len(view)
         real["_fail"] = len(rt.failures)
         if oracle_common(ctx, case, view) and structured:
-            oracle_structured(ctx, case, view, reserved_places(rt), late_reports)
+            n0, n1, _ = rt.add_windows[0]
+            vi = real["_view_idx"]
+            flush = (sum(1 for i in vi if i < n0), sum(1 for i in vi if i < n1))
+            oracle_structured(ctx, case, view, reserved_places(rt), late_reports, flush if flush[1] > flush[0] else None)
     return oracle
 
 
@@ -187,9 +205,14 @@ def nontrivial(case, real, st):
 
 
 def run(ctx):
+    from .. import uuidfresh
+    uuidfresh.check(ctx)
     n = ctx.budget(500, 16000)
     syscorr.run_programs(ctx, n // 5, dict(STRUCT, p_ext_fail=0.7, p_extractor=0.8), make_oracle(True, late_reports=True), label="explicit-finish",
                          nontrivial=nontrivial, compare=["offered", "accepted", "outcome"], transform=explicit_finish)
+    # the first add_destinations call comes late (maybe inside an open action): the start-up backlog is delivered by that call
+    syscorr.run_programs(ctx, n // 5, dict(STRUCT, p_late_add=1.0, max_stmts=14), make_oracle(True), label="late-add",
+                         nontrivial=nontrivial, compare=["offered", "accepted", "outcome"])
     syscorr.run_programs(ctx, (2 * n) // 5, STRUCT, make_oracle(True), label="struct", nontrivial=nontrivial,
                          compare=["offered", "accepted", "outcome"])
     syscorr.run_programs(ctx, (2 * n) // 5, UNSTRUCT, make_oracle(False), label="unstruct", nontrivial=nontrivial,
@@ -204,6 +227,9 @@ def _all_stmts(block):
 
 
 def replay(ctx, obj):
+    if (obj.get("case") or {}).get("kind") == "uuid-fresh":
+        from .. import uuidfresh
+        return uuidfresh.check(ctx, [obj["case"]["scenario"]])
     case = obj["case"]
     real, rt = sysinterp.run_case(case)
     print(real["outcome"], len(real["offered"]))
